@@ -27,14 +27,14 @@ for pid in sorted(props):
             "design_ref": m.get("design_ref", "DESIGN.md section 6"),
         },
         "level_note": m["level_note"] + " Catalogue: %d unbounded obligations (complete Kani harness / contract / Verus), %d bounded stand-ins (never counted as proved)." % (nC, nB),
-        "technique": m.get("technique", "function contracts and pre/post obligations on the real code, discharged by Kani/CBMC (in place on the real crate) and Verus (lemmas, extracted loop)"),
+        "technique": m.get("technique", "contract-based deductive verification: function contracts and pre/post obligations on the real code, discharged by Kani/CBMC in place on the real crate (callers of expensive callees are checked against executable statements of the callee contracts, kani::stub) and by Verus (lemmas over the contracts, mechanically extracted functions of lru.rs)"),
     })
 manifest = {
     "version": 1,
     "setup_cmd": "./setup.sh",
     "hooks": {
         "guard": "kani (set by cargo-kani) / salsa_verif_replay (replay build); both only ever seen by the scratch copy /verif/.work/salsa",
-        "enable": "tools/instrument.py copies /repo to /verif/.work/salsa and injects cfg(kani) contract attributes, child `mod verif` harness modules and the declared cfg(kani) substitutions P1-P3 on every run; /repo itself carries no hooks",
+        "enable": "tools/instrument.py copies /repo to /verif/.work/salsa and injects cfg(kani) contract attributes, child `mod verif` harness modules and the declared cfg(kani) substitutions P1-P4 on every run; /repo itself carries no hooks",
         "baseline_off_cmd": "cd /repo && cargo test --workspace --no-fail-fast --offline",
         "source_commits": [],
         "add_only": True,
